@@ -41,7 +41,11 @@ ASSUMES = [
     "parser drop its buffer and call loseConnection (pinned by test_receiveResponseHeadersTooLong: the request fails "
     "with ResponseFailed([ConnectionDone]) once the connection is lost); bytes a transport still delivers after that are "
     "parsed as if the long line had not been there. Model and tie cover this (classes long-*); the oracle checks only "
-    "exactly-once for such streams, not body exactness",
+    "exactly-once for such streams, not body exactness; the which-value and whole-stream body theorems exclude them "
+    "by hypothesis (scan ... != tooLong)",
+    "which-value and whole-stream body theorems (request_fires_response_iff_head_complete, body_whole_stream*): the "
+    "request has been written before the first response byte and neither abort() nor cancel() is called; chunked "
+    "bodies meet the C22 preconditions (size line <= 1023 bytes, trailers <= 65536 bytes)",
 ]
 TRUSTED = ["the generator's wire map (offset of every body byte, head length, total length) used by the oracle",
            "CPython int() on ASCII digit strings incl. the 4300-digit limit"]
@@ -52,14 +56,23 @@ MANIFEST = {
             "Deferred fires exactly once for EVERY event script containing the loss of the connection: deliveries of "
             "arbitrary bytes (any response, any segmentation, any truncation point) interleaved with abort, cancel, request "
             "written/failed, deliverBody (invariant over a control projection of the state, preserved by every event incl. "
-            "the whole dataReceived path lrLoop/lineReceived/allHeadersReceived/rawDataReceived/_finished/_finishResponse); "
-            "at most once without the loss; (b) the Response body state machine (exact body, exactly one connectionLost "
-            "with the parser's reason, in both orders of deliverBody and end of body). PARTIAL: which value the single "
-            "firing has (response iff the head is complete) and the link from the wire bytes through the C22 decoders to "
-            "the arguments of (b) are not proved; there the claim rests on the differential tie and the wire-map oracle "
-            "(every truncation point x segmentation on the real code).",
+            "the whole dataReceived path); at most once without the loss; (b) request_fires_response_iff_head_complete - "
+            "WHICH value: on a written request, for every script of deliveries (any bytes, any segmentation) and deliverBody "
+            "calls followed by the loss, the firing is the response iff the bytes received contain a complete well-formed "
+            "head (a pure, segmentation-independent scan by the parser's own rules: scan_append, lrLoop_scan), else "
+            "ResponseFailed([the parser's exception]) / ResponseNeverReceived([r]) / ResponseFailed([r]); (c) the wire -> "
+            "decoder -> body protocol link, whole stream: body_whole_stream (the body protocol gets exactly what the C22 "
+            "decoder emits on the bytes after the head, one makeConnection, one connectionLost, nothing if deliverBody is "
+            "never called) and per framing body_whole_stream_no_body / _content_length (first n bytes; ResponseDone iff n "
+            "arrived else ResponseFailed([r,_DataLoss])) / _until_close (PotentialDataLoss) / _chunked (via C22 decode_encode: "
+            "the chunk data, ResponseDone) / _chunked_truncated (via C22 data_loss_on_truncation: ResponseFailed([r,_DataLoss])); "
+            "(d) the Response body state machine lemmas. PARTIAL: (b),(c) assume the request already written and no "
+            "abort/cancel/written/failed among the deliveries (there: exactly-once only) and no head line over 16384 bytes; "
+            "the bytes of a TRUNCATED chunked body are characterised as the C22 decoder's output on the received prefix; "
+            "those remaining cases rest on the differential tie and the wire-map oracle.",
     "note": "trusts Lean kernel, the hand-written model (differentially tied), CPython bytes.split/strip/lower/int",
-    "technique": "Lean 4 proof (state-machine invariants over event scripts) + differential tie + wire-map oracle",
+    "technique": "Lean 4 proof (state-machine invariants over event scripts, pure head scan, C22 decoder theorems) + "
+                 "differential tie + wire-map oracle",
     "design_ref": "DESIGN.md §7 C23",
 }
 
